@@ -205,8 +205,10 @@ def _persist_jobs(tier, mons, crash):
         cfg["dev"] = 2 if tier == "quick" else 3
         if not gen.is_big(s) and tier != "quick":
             cfg["dev"] = 4
-        if gen.is_huge(s):
+        if gen.is_huge(s) or (crash and tier == "quick" and "-m3-" in s.name):
             cfg["dev"] = 1 if tier == "quick" else 2
+        if gen.is_cyclic_huge(s) and tier == "quick":
+            continue
         jobs.append(job(s, cfg, mons))
         jobs.append(job(s, dict(crash=crash, horizon=60, rerun=1, rerun_mode="tasks", dev=cfg["dev"]), mons))
     for s in gen.f4_all(tier) + gen.f5_all(tier) + gen.f6_publish(tier):
@@ -221,11 +223,22 @@ def c05(tier, seed, only=None):
     t0 = time.time()
     mons = [P + "PersistTwin"]
     jobs = _persist_jobs(tier, mons, True)
+    big_names = {s.name for s in gen.f2_all(tier) + gen.f4_all(tier) + gen.f5_all(tier) if gen.is_big(s)}
     for j in jobs:
         j["cfg"]["snap_graph"] = True
         j["cfg"]["render"] = True
-        if j["scn"]["name"] in ("F6/dict-two-terminals", "F6/cleanup-publishes-output", "F6/dict-republish-nobase"):
-            j["cfg"]["dev"] = 3 if tier == "quick" else 4
+        name = j["scn"]["name"]
+        if tier == "quick":
+            # every transition costs two deserialisations here: keep the quick tier small
+            if name in big_names:
+                j["cfg"]["dev"] = 1
+            if name.startswith("F6/"):
+                for k in ("pause", "resume", "cancel"):
+                    j["cfg"].pop(k, None)
+                j["cfg"]["dev"] = 1
+        if name in ("F6/dict-two-terminals", "F6/cleanup-publishes-output", "F6/dict-republish-nobase",
+                    "F6/dict-republish"):
+            j["cfg"]["dev"] = (3 if j["cfg"].get("rerun") else 2) if tier == "quick" else 4
     # definitions whose input / vars / output fail to render (persist before the first call, too)
     for s in gen.fx_all(tier):
         if s.meta.get("position") in ("input", "vars", "output", "retry_count", "publish") and s.meta.get("lang") == "yaql":
@@ -288,6 +301,8 @@ def _ctrl_jobs(tier, mons, base_cfg, families=("F2", "F4", "F5"), big_dev=None):
             cfg["dev"] = big_dev if big_dev is not None else (2 if tier == "quick" else 3)
         if gen.is_huge(s):
             cfg["dev"] = 1 if tier == "quick" else 2
+        if gen.is_cyclic_huge(s) and tier == "quick":
+            cfg["dev"] = 1
         jobs.append(job(s, cfg, mons))
     return jobs
 
@@ -479,6 +494,8 @@ def c17(tier, seed, only=None):
             cfg["dev"] = 3 if tier == "quick" else 5
         if gen.is_huge(s):
             cfg["dev"] = 2 if tier == "quick" else 3
+        if gen.is_cyclic_huge(s) and tier == "quick":
+            continue
         jobs.append(job(s, cfg, mons))
         if tier != "quick" or (not gen.is_big(s) and s.family == "F2"):
             cfg2 = dict(cfg)
